@@ -580,12 +580,15 @@ struct Dumper {
   // ("M <address width> <reg>"); the driver follows the register set with the extracted, proven RaIRModel.sa_step and
   // refuses an operand whose base register is not in the set.
   int sa_reg = -1; int64_t sa_base = 0;
-  // by-reference call arguments: the register the last "lea p, [sp+k]" defined and k (forgotten at the next instruction that
-  // names the register, label or call), the number of such lea seen per call, the temporaries of each call
+  // by-reference call arguments: the last "lea p, [sp+k]" (tmp_reg >= 0: one was seen; k = tmp_off is only a HINT for the
+  // "movaps [q], x" behind it - the dumper prints "t<q>:<k>" and the driver accepts "slot k" only if the extracted, proven
+  // RaIRModel.sa_step lists q among the registers holding the address of temporary k, started by the line "N <p> <k>"),
+  // the number of such lea seen per call, the temporaries of each call
   int tmp_reg = -1; int64_t tmp_off = 0; std::map<BaseNode*, int> tmp_seen; std::map<std::pair<BaseNode*, int>, int64_t> tmp_of;
   bool is_arg_mem(const x86::Mem& m) const { return sa_reg >= 0 && m.has_base_reg() && !m.has_index() && m.base_id() < 32 && m.base_id() != x86::Gp::kIdSp && !(fp_frame() && m.base_id() == x86::Gp::kIdBp) && (m.base_type() == RegType::kGp64 || m.base_type() == RegType::kGp32) && !m.is_reg_home() && !m.has_segment(); }
   // functions that keep a frame pointer address their stack arguments as [zbp + sa_offset_from_sa + k]; the allocator never
-  // allocates zbp there (and the dumper refuses any instruction that names it). With a re-aligned stack that is argument-area
+  // allocates zbp there; that zbp is constant in the body is CHECKED by the driver with the extracted, proven
+  // RaIRModel.reg_untouched on the dumped program (line "F <group> <id>"). With a re-aligned stack that is argument-area
   // byte k ("a-:k"), otherwise the same byte is also [zsp + sa_offset_from_sp + k] and gets that (canonical) slot name.
   bool fp_frame() const { return !a64 && func->frame().has_preserved_fp(); }
   bool is_fp_arg_mem(const x86::Mem& m) const { return fp_frame() && m.has_base_reg() && !m.has_index() && m.base_id() == x86::Gp::kIdBp && (m.base_type() == RegType::kGp64 || m.base_type() == RegType::kGp32) && !m.is_reg_home() && !m.has_segment(); }
@@ -665,7 +668,6 @@ struct Dumper {
         if (op.is_reg()) {
           const Reg& r = op.as<Reg>();
           if (r.reg_type() == RegType::kGp8Hi) { d.ok = false; d.why = "gp8-hi"; return d; }
-          if (target && fp_frame() && r.reg_group() == RegGroup::kGp && r.id() == x86::Gp::kIdBp) { d.ok = false; d.why = "frame pointer used as an operand"; return d; }
           if (target == is_virt(r.id())) { d.ok = false; d.why = target ? "virtual register left in output" : "physical register in input"; return d; }
           name = regname(r.reg_group(), r.id()); osize = r.size();
           if (!target) vsizes[i] = vsize_of(r.id()) | (r.size() << 16);
@@ -832,7 +834,7 @@ static bool target_move(Dumper& D, InstNode* inst, std::string& out) {
   if (inst->has_extra_reg() || inst->op_count() != 2) return false;
   const Operand& o0 = inst->op(0); const Operand& o1 = inst->op(1);
   auto locof = [&](const Operand& o, std::string& name, uint32_t& size) -> bool {
-    if (o.is_reg()) { const Reg& r = o.as<Reg>(); if (D.is_virt(r.id()) || r.reg_type() == RegType::kGp8Hi) return false; if (D.fp_frame() && r.reg_group() == RegGroup::kGp && r.id() == x86::Gp::kIdBp) return false; if (r.reg_group() != RegGroup::kGp && r.reg_type() != RegType::kVec128 && r.reg_type() != RegType::kVec256 && r.reg_type() != RegType::kVec512 && r.reg_group() != RegGroup::kMask) return false; name = D.regname(r.reg_group(), r.id()); size = r.size(); return true; }
+    if (o.is_reg()) { const Reg& r = o.as<Reg>(); if (D.is_virt(r.id()) || r.reg_type() == RegType::kGp8Hi) return false; if (r.reg_group() != RegGroup::kGp && r.reg_type() != RegType::kVec128 && r.reg_type() != RegType::kVec256 && r.reg_type() != RegType::kVec512 && r.reg_group() != RegGroup::kMask) return false; name = D.regname(r.reg_group(), r.id()); size = r.size(); return true; }
     if (o.is_mem()) { const x86::Mem& m = o.as<x86::Mem>(); if (D.is_fp_arg_mem(m)) { name = D.fp_arg_name(m); size = m.size(); return true; } if (D.is_arg_mem(m)) { name = Dumper::argname(int(m.base_id()), m.offset() - D.sa_base); size = m.size(); return true; } if (!Dumper::is_slot(m)) return false; name = Dumper::slotname(m.offset()); size = m.size(); return true; }
     return false; };
   std::string d, s; uint32_t ds = 0, ss = 0;
@@ -1002,7 +1004,6 @@ static void dump_target(Dumper& D, std::vector<PreNode>& pre, std::map<BaseNode*
         snprintf(b, sizeof b, " %zu", defs.size()); s += b; for (auto& a : defs) { snprintf(b, sizeof b, " %s %d", a.name.c_str(), a.w); s += b; }
         T(0, s); prolog_left = prolog.size(); break; }
       case NodeType::kLabel: {
-        D.tmp_reg = -1;
         snprintf(b, sizeof b, "label %u", n->as<LabelNode>()->label_id()); T(pn ? pn->sidx : -1, b);
         if (n == func->exit_node()) in_epilog = true;
         break; }
@@ -1010,7 +1011,7 @@ static void dump_target(Dumper& D, std::vector<PreNode>& pre, std::map<BaseNode*
         if (epilog_pos != epilog.size() || in_epilog) { out.ok = false; out.why = "epilog shorter than expected"; return; }
         break; }
       case NodeType::kInvoke: {
-        InvokeNode* inv = n->as<InvokeNode>(); D.tmp_reg = -1;
+        InvokeNode* inv = n->as<InvokeNode>();
         if (!pn) { out.ok = false; out.why = "inserted call"; return; }
         Desc d = D.describe(inv, true, pn->vsizes, pn->idioms);
         if (!d.ok) { std::string t = d.why; std::replace(t.begin(), t.end(), ' ', '_'); T(pn->sidx, "bad call:" + t); break; }
@@ -1084,13 +1085,13 @@ static void dump_target(Dumper& D, std::vector<PreNode>& pre, std::map<BaseNode*
             if (ci != idx.end()) { PreNode& cp = pre[ci->second]; int k = D.tmp_seen[c]++;
               if (k < int(cp.ind_arg.size())) {
                 D.tmp_reg = int(inst->op(0).as<Reg>().id()); D.tmp_off = inst->op(1).as<x86::Mem>().offset(); D.tmp_of[{c, cp.ind_arg[size_t(k)]}] = D.tmp_off;
+                snprintf(b, sizeof b, "!N %d %lld", D.tmp_reg, (long long)D.tmp_off); out.T.push_back(b);
                 snprintf(b, sizeof b, "op ARGTMP|%d 0 1 %s %d", cp.ind_arg[size_t(k)], D.regname(RegGroup::kGp, uint32_t(D.tmp_reg)).c_str(), D.aw); T(cp.ind_sidx[size_t(k)], b); break; } } }
-          if (!pn && D.tmp_reg >= 0 && (inst->inst_id() == x86::Inst::kIdMovaps || inst->inst_id() == x86::Inst::kIdVmovaps) && inst->op_count() == 2 && inst->op(0).is_mem() && inst->op(1).is_reg()) {
+          if (!pn && D.tmp_reg >= 0 && !D.a64 && !D.x32 && (inst->inst_id() == x86::Inst::kIdMovaps || inst->inst_id() == x86::Inst::kIdVmovaps) && inst->op_count() == 2 && inst->op(0).is_mem() && inst->op(1).is_reg()) {
             // "movaps [p], x" directly behind that lea (nothing in between named p): the 16 bytes of x are stored in the temporary
             const x86::Mem& m = inst->op(0).as<x86::Mem>(); const Reg& x = inst->op(1).as<Reg>();
-            if (m.has_base_reg() && !m.has_index() && int(m.base_id()) == D.tmp_reg && m.base_id() != x86::Gp::kIdSp && m.offset() == 0 && !m.has_segment() && !m.is_reg_home() && x.reg_type() == RegType::kVec128 && !D.is_virt(x.id())) {
-              snprintf(b, sizeof b, "mov %s %s 16 0 16", Dumper::slotname(D.tmp_off).c_str(), D.regname(RegGroup::kVec, x.id()).c_str()); T(-1, b); D.tmp_reg = -1; break; } }
-          if (D.tmp_reg >= 0) for (uint32_t oi = 0; oi < inst->op_count(); oi++) if (inst->op(oi).is_reg() && inst->op(oi).as<Reg>().reg_group() == RegGroup::kGp && int(inst->op(oi).as<Reg>().id()) == D.tmp_reg) D.tmp_reg = -1;
+            if (m.has_base_reg() && !m.has_index() && m.base_id() < 32 && m.base_type() == RegType::kGp64 && m.base_id() != x86::Gp::kIdSp && m.offset() == 0 && !m.has_segment() && !m.is_reg_home() && x.reg_type() == RegType::kVec128 && !D.is_virt(x.id())) {
+              snprintf(b, sizeof b, "mov t%u:%lld %s 16 0 16", unsigned(m.base_id()), (long long)D.tmp_off, D.regname(RegGroup::kVec, x.id()).c_str()); T(-1, b); break; } }
           bool tm = target_move(D, inst, s);
           if (tm) T(pn ? pn->sidx : -1, s);
           else { String sb; Formatter::format_node(sb, FormatOptions(), &D.cc, n); std::string t = sb.data(); std::replace(t.begin(), t.end(), ' ', '_'); T(pn ? pn->sidx : -1, "bad unmodelled-insertion:" + t); }
@@ -1105,7 +1106,6 @@ static void dump_target(Dumper& D, std::vector<PreNode>& pre, std::map<BaseNode*
                   inst->op(0).as<Reg>().size() == inst->op(1).as<x86::Mem>().size();
           if (!xform) { T(pn->sidx, "bad instruction id changed"); break; }
         }
-        if (D.tmp_reg >= 0) for (uint32_t oi = 0; oi < inst->op_count(); oi++) if (inst->op(oi).is_reg() && inst->op(oi).as<Reg>().reg_group() == RegGroup::kGp && int(inst->op(oi).as<Reg>().id()) == D.tmp_reg) D.tmp_reg = -1;
         Desc d = D.describe(inst, true, pn->vsizes, pn->idioms);
         if (xform) d.key = pn->key;
         if (!d.ok) { std::string t = d.why; std::replace(t.begin(), t.end(), ' ', '_'); T(pn->sidx, "bad " + t); break; }
@@ -1271,7 +1271,7 @@ static int run_one(uint64_t seed, uint64_t index, int inputs, bool verbose, cons
   if (e != Error::kOk) { printf("G ra-error %u %s\nE\n", unsigned(e), eh.msg.c_str()); return 0; }
   if (dr.ok) dump_target(D, pre, idx, dr);
   if (!dr.ok) printf("U %s\n", dr.why.c_str());
-  else { for (auto& s : dr.S) printf("S %s\n", s.c_str()); if (D.sa_reg >= 0) printf("M %d %d\n", D.aw, D.sa_reg); for (auto& s : dr.T) printf("T %s\n", s.c_str()); }
+  else { for (auto& s : dr.S) printf("S %s\n", s.c_str()); if (D.sa_reg >= 0) printf("M %d %d\n", D.aw, D.sa_reg); if (D.fp_frame()) printf("F 0 %u\n", unsigned(x86::Gp::kIdBp)); for (auto& s : dr.T) { if (s[0] == '!') printf("%s\n", s.c_str() + 1); else printf("T %s\n", s.c_str()); } }
   if (verbose) { String sb; FormatOptions fo; for (BaseNode* n = cc.first_node(); n; n = n->next()) { sb.clear(); Formatter::format_node(sb, fo, &cc, n); printf("# %s\n", sb.data()); } }
   // serialize + execute
   x86::Assembler as(&code);
@@ -1430,7 +1430,7 @@ static void run_one_a64(uint64_t seed, uint64_t index, bool verbose) {
   if (e != Error::kOk) { printf("G ra-error %u %s\nE\n", unsigned(e), eh.msg.c_str()); return; }
   if (dr.ok) dump_target(D, pre, idx, dr);
   if (!dr.ok) printf("U %s\n", dr.why.c_str());
-  else { for (auto& s : dr.S) printf("S %s\n", s.c_str()); if (D.sa_reg >= 0) printf("M %d %d\n", D.aw, D.sa_reg); for (auto& s : dr.T) printf("T %s\n", s.c_str()); }
+  else { for (auto& s : dr.S) printf("S %s\n", s.c_str()); if (D.sa_reg >= 0) printf("M %d %d\n", D.aw, D.sa_reg); if (D.fp_frame()) printf("F 0 %u\n", unsigned(x86::Gp::kIdBp)); for (auto& s : dr.T) { if (s[0] == '!') printf("%s\n", s.c_str() + 1); else printf("T %s\n", s.c_str()); } }
   if (verbose) { String sb; FormatOptions fo; for (BaseNode* n = cc.first_node(); n; n = n->next()) { sb.clear(); Formatter::format_node(sb, fo, &cc, n); printf("# %s\n", sb.data()); } }
   a64::Assembler as(&code);
   e = cc.serialize_to(&as);
@@ -1535,7 +1535,7 @@ static void run_one_x32(uint64_t seed, uint64_t index, bool verbose) {
   if (e != Error::kOk) { printf("G ra-error %u %s\nE\n", unsigned(e), eh.msg.c_str()); return; }
   if (dr.ok) dump_target(D, pre, idx, dr);
   if (!dr.ok) printf("U %s\n", dr.why.c_str());
-  else { for (auto& s : dr.S) printf("S %s\n", s.c_str()); if (D.sa_reg >= 0) printf("M %d %d\n", D.aw, D.sa_reg); for (auto& s : dr.T) printf("T %s\n", s.c_str()); }
+  else { for (auto& s : dr.S) printf("S %s\n", s.c_str()); if (D.sa_reg >= 0) printf("M %d %d\n", D.aw, D.sa_reg); if (D.fp_frame()) printf("F 0 %u\n", unsigned(x86::Gp::kIdBp)); for (auto& s : dr.T) { if (s[0] == '!') printf("%s\n", s.c_str() + 1); else printf("T %s\n", s.c_str()); } }
   if (verbose) { String sb; FormatOptions fo; for (BaseNode* n = cc.first_node(); n; n = n->next()) { sb.clear(); Formatter::format_node(sb, fo, &cc, n); printf("# %s\n", sb.data()); } }
   x86::Assembler as(&code);
   e = cc.serialize_to(&as);
@@ -1612,6 +1612,71 @@ static int alu_mode(uint64_t seed, int n, char** names) {
   return 0;
 }
 
+
+// ---- "moves <seed>": every instruction form the dumper accepts as an inserted move / load / save / swap (target_move) is
+// (1) described by target_move - the T line with width, keep flag and extension width the validator will believe - and
+// (2) executed on the host CPU on random register and stack contents. Output: "V <T line> | <dst reg before> <src reg
+// before> <stack window before> <dst after> <src after> <window after>" (little-endian images as hex numbers; GP/k
+// registers 8 bytes, vector registers 64 bytes, window = [rsp, rsp+128)). The driver runs the extracted tstep on the T line
+// and compares the whole register and the whole window.
+typedef void (*MoveFn)(uint8_t*);
+static int moves_mode(uint64_t seed) {
+  Rng r(seed * 104729ull + 5);
+  JitRuntime rt;
+  bool avx = rt.cpu_features().x86().has_avx2(), avx512 = rt.cpu_features().x86().has_avx512_f() && rt.cpu_features().x86().has_avx512_bw() && rt.cpu_features().x86().has_avx512_vl();
+  struct Form { InstId id; Operand o0, o1; int cls; };   // cls 0 GP, 1 vector, 2 mask
+  std::vector<Form> forms; using namespace x86;
+  auto M = [](uint32_t size, int32_t off) { Mem m = ptr(rsp, off); m.set_size(size); return m; };
+  const Gp A[4] = {al, ax, eax, rax}, B[4] = {cl, cx, ecx, rcx}; const uint32_t W[4] = {1, 2, 4, 8};
+  for (int k = 0; k < 4; k++) { forms.push_back({Inst::kIdMov, A[k], B[k], 0}); forms.push_back({Inst::kIdMov, A[k], M(W[k], 40), 0}); forms.push_back({Inst::kIdMov, M(W[k], 40), B[k], 0}); }
+  forms.push_back({Inst::kIdMovzx, eax, cl, 0}); forms.push_back({Inst::kIdMovzx, eax, cx, 0}); forms.push_back({Inst::kIdMovzx, rax, cl, 0}); forms.push_back({Inst::kIdMovzx, rax, cx, 0});
+  forms.push_back({Inst::kIdMovzx, eax, M(1, 40), 0}); forms.push_back({Inst::kIdMovzx, rax, M(2, 40), 0});
+  forms.push_back({Inst::kIdXchg, rax, rcx, 0}); forms.push_back({Inst::kIdXchg, eax, ecx, 0}); forms.push_back({Inst::kIdXchg, rax, rax, 0});
+  for (InstId id : {Inst::kIdMovdqa, Inst::kIdMovdqu, Inst::kIdMovaps, Inst::kIdMovups, Inst::kIdMovapd, Inst::kIdMovupd}) { forms.push_back({id, xmm0, xmm1, 1}); forms.push_back({id, xmm0, M(16, 64), 1}); forms.push_back({id, M(16, 64), xmm1, 1}); }
+  if (avx) for (InstId id : {Inst::kIdVmovdqa, Inst::kIdVmovdqu, Inst::kIdVmovaps, Inst::kIdVmovups, Inst::kIdVmovapd, Inst::kIdVmovupd}) {
+    forms.push_back({id, xmm0, xmm1, 1}); forms.push_back({id, xmm0, M(16, 64), 1}); forms.push_back({id, M(16, 64), xmm1, 1});
+    forms.push_back({id, ymm0, ymm1, 1}); forms.push_back({id, ymm0, M(32, 64), 1}); forms.push_back({id, M(32, 64), ymm1, 1}); }
+  if (avx512) { for (InstId id : {Inst::kIdVmovdqa32, Inst::kIdVmovdqu32, Inst::kIdVmovdqa64, Inst::kIdVmovdqu64}) {
+      forms.push_back({id, xmm0, xmm1, 1}); forms.push_back({id, ymm0, M(32, 64), 1}); forms.push_back({id, M(32, 64), ymm1, 1});
+      forms.push_back({id, zmm0, zmm1, 1}); forms.push_back({id, zmm0, M(64, 64), 1}); forms.push_back({id, M(64, 64), zmm1, 1}); }
+    forms.push_back({Inst::kIdKmovq, k1, k2, 2}); forms.push_back({Inst::kIdKmovq, k1, M(8, 40), 2}); forms.push_back({Inst::kIdKmovq, M(8, 40), k2, 2}); }
+  // a function node to hang the Dumper on (no stack arguments, no frame pointer)
+  CodeHolder dcode; dcode.init(rt.environment(), rt.cpu_features()); x86::Compiler dcc(&dcode); FuncNode* df = dcc.add_func(FuncSignature::build<void>());
+  Dumper D(dcc, df);
+  for (size_t fi = 0; fi < forms.size(); fi++) {
+    const Form& f = forms[fi];
+    InstNode* node = nullptr; if (dcc.new_inst_node(Out<InstNode*>(node), f.id, InstOptions::kNone, 2) != Error::kOk || !node) { printf("VX form %zu no-node\n", fi); continue; }
+    node->set_op(0, f.o0); node->set_op(1, f.o1);
+    std::string tline; String sb; Formatter::format_node(sb, FormatOptions(), &dcc, node); std::string txt = sb.data(); std::replace(txt.begin(), txt.end(), ' ', '_');
+    if (!target_move(D, node, tline)) { printf("VX %s not-accepted-by-target_move\n", txt.c_str()); continue; }
+    CodeHolder code; code.init(rt.environment(), rt.cpu_features()); ErrH eh; code.set_error_handler(&eh); x86::Assembler a(&code);
+    a.mov(r9, rsp); a.and_(rsp, -64); a.sub(rsp, 128);
+    for (int j = 0; j < 16; j++) { a.mov(r8, qword_ptr(rdi, 128 + 8 * j)); a.mov(qword_ptr(rsp, 8 * j), r8); }
+    if (f.cls == 0) { a.mov(rax, qword_ptr(rdi)); a.mov(rcx, qword_ptr(rdi, 64)); }
+    else if (f.cls == 1) { if (avx512) { a.vmovdqu64(zmm0, zmmword_ptr(rdi)); a.vmovdqu64(zmm1, zmmword_ptr(rdi, 64)); } else if (avx) { a.vmovdqu(ymm0, ymmword_ptr(rdi)); a.vmovdqu(ymm1, ymmword_ptr(rdi, 64)); } else { a.movdqu(xmm0, xmmword_ptr(rdi)); a.movdqu(xmm1, xmmword_ptr(rdi, 64)); } }
+    else { a.kmovq(k1, qword_ptr(rdi)); a.kmovq(k2, qword_ptr(rdi, 64)); }
+    a.emit(f.id, f.o0, f.o1);
+    if (f.cls == 0) { a.mov(qword_ptr(rdi), rax); a.mov(qword_ptr(rdi, 64), rcx); }
+    else if (f.cls == 1) { if (avx512) { a.vmovdqu64(zmmword_ptr(rdi), zmm0); a.vmovdqu64(zmmword_ptr(rdi, 64), zmm1); } else if (avx) { a.vmovdqu(ymmword_ptr(rdi), ymm0); a.vmovdqu(ymmword_ptr(rdi, 64), ymm1); } else { a.movdqu(xmmword_ptr(rdi), xmm0); a.movdqu(xmmword_ptr(rdi, 64), xmm1); } }
+    else { a.kmovq(qword_ptr(rdi), k1); a.kmovq(qword_ptr(rdi, 64), k2); }
+    for (int j = 0; j < 16; j++) { a.mov(r8, qword_ptr(rsp, 8 * j)); a.mov(qword_ptr(rdi, 128 + 8 * j), r8); }
+    a.mov(rsp, r9); if (avx) a.vzeroupper(); a.ret();
+    MoveFn fn = nullptr; Error e = eh.err; if (e == Error::kOk) e = rt.add(&fn, &code);
+    if (e != Error::kOk || !fn) { printf("VX %s assemble-error %u %s\n", txt.c_str(), unsigned(e), eh.msg.c_str()); continue; }
+    int regbytes = f.cls == 1 ? (avx512 ? 64 : avx ? 32 : 16) : 8;
+    for (int t = 0; t < 6; t++) {
+      alignas(64) uint8_t st[256]; for (int j = 0; j < 256; j++) st[j] = uint8_t(t == 0 ? 0xFF : r.next());
+      memset(st + regbytes, 0, size_t(64 - regbytes)); memset(st + 64 + regbytes, 0, size_t(64 - regbytes));
+      uint8_t before[256]; memcpy(before, st, 256);
+      fn(st);
+      printf("V %s | %s %s %s %s %s %s %s\n", tline.c_str(), hexle(before, 64).c_str(), hexle(before + 64, 64).c_str(), hexle(before + 128, 128).c_str(),
+             hexle(st, 64).c_str(), hexle(st + 64, 64).c_str(), hexle(st + 128, 128).c_str(), txt.c_str());
+    }
+    rt.release(fn);
+  }
+  return 0;
+}
+
 int main(int argc, char** argv) {
   if (argc >= 4 && !strcmp(argv[1], "probe")) { g_features = 255; run_one(1, 0, atoi(argv[3]), argc > 4 && atoi(argv[4]) != 0, argv[2]); return 0; }
   if (argc >= 4 && !strcmp(argv[1], "jt7")) { g_jt_mode = 7; g_features = 127; for (uint64_t i = 0; i < strtoull(argv[2], nullptr, 10); i++) { run_one(424242, i, atoi(argv[3]), false); fflush(stdout); } return 0; }
@@ -1620,6 +1685,7 @@ int main(int argc, char** argv) {
     for (int i = 2; i < argc; i++) { InstId id = InstAPI::string_to_inst_id(Arch::kX64, argv[i], strlen(argv[i])); String nm; InstAPI::inst_id_to_string(Arch::kX64, id, InstStringifyOptions::kNone, nm);
       printf("%s %u %s\n", argv[i], unsigned(id), nm.data()); }
     return 0; }
+  if (argc >= 3 && !strcmp(argv[1], "moves")) return moves_mode(strtoull(argv[2], nullptr, 10));
   if (argc >= 4 && !strcmp(argv[1], "alu")) return alu_mode(strtoull(argv[2], nullptr, 10), argc - 3, argv + 3);
   if (argc >= 6 && !strcmp(argv[1], "skel")) { g_skel = true; g_features = 1023; uint64_t sd = strtoull(argv[2], nullptr, 10), fi = strtoull(argv[3], nullptr, 10), cn = strtoull(argv[4], nullptr, 10);
     for (uint64_t i = fi; i < fi + cn; i++) { run_one(sd, i, atoi(argv[5]), argc > 6 && atoi(argv[6]) != 0); fflush(stdout); } return 0; }
